@@ -101,4 +101,23 @@ def encode_quad (enc encG : Term → M TermEnc (List Row × WTerm)) (exc : PyErr
   rows := rows ++ [Row.quad quad.s quad.p quad.o quad.g]
   return rows
 
+/-- `TermEncoder.encode_iri`: the ids of `encode_iri_indices` stored in the IRI message (its two fields are the result) -/
+def TermEncoder.encode_iri (iri_string : String) : M Jelly.TermEnc (List Row × (Nat × Nat)) := do
+  let t1__ ← TermEncoder.encode_iri_indices iri_string
+  let mut iri__ : Nat × Nat := (0, 0)
+  iri__ := (t1__.2.1, iri__.2)
+  iri__ := (iri__.1, t1__.2.2)
+  return (t1__.1, iri__)
+
+/-- `encode_namespace_declaration` -/
+def encode_namespace_declaration (name : String) (value : String) : M Jelly.TermEnc (List Row) := do
+  let mut iri__ : Nat × Nat := (0, 0)
+  TermEncoder.start_row
+  let t1__ ← TermEncoder.encode_iri value
+  let mut rows : List Row := t1__.1
+  iri__ := t1__.2
+  TermEncoder.end_row
+  rows := rows ++ [Row.namespace name (some iri__)]
+  return rows
+
 end Jelly.Gen
